@@ -31,6 +31,14 @@ CHECKS = {
         design_ref="DESIGN.md §4 C18",
         note="Trusts networkx graph views as ground truth for what the lineage graph contains.",
     ),
+    "C01": dict(
+        technique="reference-model monitor: generated ASTs carry their own table-level meaning; statement tap + public accessors compared with it",
+        category="exploration",
+        text="Every statement of a bounded-exhaustive (depth 1; hole-complete depth 2 in thorough) and seeded-random (depth <= 4) core-grammar enumeration is rendered and analysed "
+             "by the real package under sqlfluff dialects; per-statement read/write sets and source/target tables must equal the AST's meaning; local names must never appear.",
+        design_ref="DESIGN.md §4 C01",
+        note="The generator's structural semantics is the trusted reference (core grammar, keyword-free identifiers); InvalidSyntaxException = not accepted by that dialect; known findings are matched only by the narrow 'sources lost under one tagged AST mechanism' shape.",
+    ),
     "C03": dict(
         technique="history monitor: relational role model replayed over observed per-statement facts, real SQLLineageHolder.of called on every prefix",
         category="exploration",
